@@ -89,7 +89,7 @@ def r2_no_solution(ctx, chk, rule="C06.2"):
     sx = SymX(ctx, f, "Solver", inline_depth=0).run()
     raises = [(i, e) for i, e in enumerate(sx.final.effects) if e[1] == "raise"]
     loops_at = [i for i, e in enumerate(sx.final.effects) if e[1] == "loop" and sx.loops[e[2]].kind == "while"]
-    slist = ("attr", ("v", "self"), "state_list")
+    slist = shared.SLIST(ctx)
     flag = [p for p in f.params if "prune" in p]
     if not flag:
         chk.undecided(rule, f.where(), "value_iteration_reachability has no prune flag parameter")
@@ -124,7 +124,7 @@ def r2b_flag_raises(ctx, chk, rule="C06.2b"):
         f = ctx.func(q)
         cls = f.cls.name
         sx = SymX(ctx, f, cls, inline_depth=0).run()
-        flags = [("v", p) for p in f.params if "prune" in p] + [("attr", ("v", "self"), "prune_states")]
+        flags = [("v", p) for p in f.params if "prune" in p] + [("attr", ("v", "self"), shared.solver_names(ctx)["flag_field"])]
         effs = list(sx.final.effects)
         for L in sx.loops.values():
             effs += L.effects
@@ -261,7 +261,7 @@ def r3b_constant_subscripts(ctx, chk, rule="C06.3b"):
                     chk.violation(rule, where, "`%s[%d]` is evaluated without a dominating non-emptiness test: a state whose transitions were all pruned raises IndexError out of solve()" % (text, node.slice.value),
                                   expected="if not self.next_states: return ... before the subscript", found=norm_stmt(ctx.cfg(f).stmt_of(node)),
                                   construct="%s unguarded next_states[0]" % f.short)
-            elif bp == "self.state_list":
+            elif bp == "self." + shared.solver_names(ctx)["field"]:
                 # the initial-state convention; a game without states is rejected by check_game (min()/max() of empty lists raise ValueError,
                 # and init_states compares the number of nodes built with num_states)
                 chk.ok(rule, where, "`%s[%d]`: initial-state convention; an empty state list cannot reach the solver (check_game/init_states dominate, C09.4)" % (text, node.slice.value))
